@@ -151,10 +151,12 @@ def typed_oracle(st, mp, md):
     return lost, bool(lost) and all(i in both for (_, i) in lost)
 
 
-def run_lines(exe, lines, tag, timeout=3000):
+def run_lines(exe, lines, tag, timeout=3000, pin=False):
     path = os.path.join(vlib.BUILD, "C02", "in_%s_%d.txt" % (tag, os.getpid()))
     open(path, "w").write("\n".join(lines) + "\n")
-    rc, out, err = vlib.sh2("ulimit -s unlimited 2>/dev/null; %s %s" % (exe, path), timeout=timeout)
+    # pin=True: one core, so that rustic's parallel archiver cuts packs identically on every run (determinism)
+    pre = "taskset -c 0 " if pin and os.path.exists("/usr/bin/taskset") else ""
+    rc, out, err = vlib.sh2("ulimit -s unlimited 2>/dev/null; %s%s %s" % (pre, exe, path), timeout=timeout)
     os.remove(path)
     res = out.splitlines()
     if rc != 0 or len(res) != len(lines):
@@ -213,6 +215,14 @@ def gen_history(rng, maxsteps, with_collision=False):
 COLLISION_REPLAY = "1 4096 512 4 0 5 0 5 6 2 1 0 0 0 0 0 0 1 0 0 0 0 0"
 
 
+# two backups, forget the first, prune (marks its packs, keep_delete 1h), the forgotten snapshot comes back,
+# prune again: the marked packs must be recovered (second line: then forget everything and prune instantly)
+RECOVER_REPLAYS = [
+    "3 2000 256 6 0 101 3 0 102 3 1 1 2 0 0 0 0 0 0 0 1 0 0 0 0 3600 4 0 2 0 0 0 0 0 0 0 1 0 0 0 0 3600",
+    "3 2000 256 8 0 101 3 0 102 3 1 1 2 0 0 0 0 0 0 0 1 0 0 0 0 3600 4 0 2 0 0 0 0 0 0 0 1 0 0 0 0 3600 1 3 2 1 0 1 0 1 0 0 1 0 0 0 0 0",
+]
+
+
 def run(ctx):
     rng, cov = ctx.rng, ctx.coverage
     # 1. facts from the source
@@ -247,7 +257,7 @@ def run(ctx):
     impl = vlib.build_harness("c02")
     e2e = vlib.build_harness("c02_e2e")
     # 4. planner-level correspondence
-    ncases = 12000 if ctx.thorough() else 2500
+    ncases = 30000 if ctx.thorough() else 4000
     cases = []
     corpus = os.path.join(ctx.pdir, "corpus.txt")
     while len(cases) < ncases:
@@ -302,16 +312,16 @@ def run(ctx):
     cov.update({"planner_cases": len(cases), "model_impl_mismatches": len(mism), "compared_weakly_because_of_equal_sort_keys": weak,
                 "boundaries_hit": boundary, "typed_oracle_losses_on_model": len(typed_viol)})
     # 5. end-to-end histories on the real library
-    nh = 60 if ctx.thorough() else 14
+    nh = 150 if ctx.thorough() else 30
     maxsteps = 8
-    hl = [COLLISION_REPLAY]
+    hl = [COLLISION_REPLAY] + RECOVER_REPLAYS
     for k in range(nh):
         hl.append(gen_history(rng, maxsteps, with_collision=(k % 7 == 3)))
     if ctx.replay:
         rp = json.load(open(ctx.replay))
         if "history" in rp.get("witness", {}): hl = [rp["witness"]["history"]]
-    e2e_out = run_lines(e2e, hl, "e2e", timeout=3400)
-    e2e_fail, e2e_steps, backup_side = [], 0, 0
+    e2e_out = run_lines(e2e, hl, "e2e", timeout=3400, pin=True)
+    e2e_fail, e2e_steps, backup_side, e2e_obs = [], 0, 0, {}
     for h, o in zip(hl, e2e_out):
         f = dict(x.split("=", 1) for x in o.split()[1:] if "=" in x)
         if o.startswith("FAIL") and f.get("op") in ("0", "3", "5", "6") and f.get("lost_collide") == "1":
@@ -322,13 +332,14 @@ def run(ctx):
         if o.startswith("ok"):
             e2e_steps += int(f.get("steps", 0))
             for k in ("prunes", "packs_removed", "recovered", "repacked"):
-                hist["e2e_" + k] = hist.get("e2e_" + k, 0) + int(f.get(k, 0))
+                e2e_obs[k] = e2e_obs.get(k, 0) + int(f.get(k, 0))
         else:
             e2e_fail.append((h, o, f))
     cov.update({"evaluations": len(cases) + len(hl), "distinct_nontrivial": len(nontriv),
                 "rule": "planner cases = 1-4 index files x up to 12 packs (plus packs holding 254-300 copies of one blob) over a small blob universe: duplicates across and inside packs, packs listed twice / both marked and unmarked, marked packs at mark_time+keep_delete in {now-1,now,now+1}, pack times at the keep_pack boundary, missing time, partially used / unused / unreferenced / missing / wrong-size packs, every option; non-trivial = some used id and some pack not simply kept; distinct by case text.  e2e = histories of <= %d steps of {backup of a mutated source, forget subset, resurrect+prune, prune(random options)} with pack sizes 600-20000 and 64-512 byte chunks" % maxsteps,
                 "samples": samples, "distribution": hist,
                 "traces_validated_against_impl": len(cases) + len(hl), "e2e_histories": len(hl), "e2e_steps_verified": e2e_steps,
+                "e2e_observed_counters_may_vary_by_thread_timing": e2e_obs,
                 "e2e_failures": len(e2e_fail), "e2e_backup_side_collisions_skipped": backup_side, "disagreements_checked": len(mism) + len(typed_viol) + len(e2e_fail)})
     # 6. decide
     for h, o, f in e2e_fail[:20]:
